@@ -20,15 +20,17 @@
       equality, member order of the top level and of "destinations" ignored; the "columns" member identical
       *including* its order), for every column kind, missing values included, either orientation.
 
-  `unknown_form_rejected` ("an unknown output form is rejected before anything is read") is a statement about
-  Python generator semantics — `parse_blocks` raises ValueError at the first `next()`, before the row iterator
-  is advanced — and is checked by the harness only (an iterator recording `__next__` calls): `Form` is a closed
-  enumeration here, an unknown form is not expressible in the model.
+    * `unknown_form_rejected`: `to` given as text is looked up among the translated `TABLE_HANDLERS` keys
+      (`Gen.tableHandlers`, pinned) before anything else; a text that is not one of the three keys is answered
+      with ValueError whatever the rows are — the answer is the same for every row sequence, so no row can have
+      been looked at.  That the Python generator really raises at the first `next()` without advancing the row
+      iterator / the text stream is observed by the harness (recording iterator, recording stream).
 -/
 import PdtModel.Model.Blocks
 import PdtModel.Model.Json
 import PdtModel.Props.C03
 import PdtModel.Props.C08
+import PdtModel.Props.C13
 set_option linter.unusedSimpArgs false
 set_option linter.unusedVariables false
 namespace Pdt.C07
@@ -40,6 +42,53 @@ def withForm (cfg : Config) (fm : Form) : Config := { cfg with form := fm }
 /-- the read delivered every accepted block: no issue reported, input exhausted -/
 def succeeded (r : Result) : Bool :=
   r.issues.isEmpty && (match r.ending with | .exhausted => true | _ => false)
+
+/-! ## 0. the output forms are the keys of TABLE_HANDLERS; anything else is rejected unread -/
+
+theorem table_handlers_pinned :
+    Gen.tableHandlers = [("pdtable", "_make_table"), ("jsondata", "make_table_json_data"), ("cellgrid", "make_raw_cells")] ∧
+    Gen.tableHandlerKeys = ["pdtable".toList, "jsondata".toList, "cellgrid".toList] ∧
+    Gen.unknownFormRaises = "ValueError" := by decide
+
+/-- `_table_handlers[to]` for a text `to`: exactly the three literal keys -/
+theorem formOf_pinned (s : Str) :
+    formOf s = if s = "pdtable".toList then some Form.pdtable
+               else if s = "jsondata".toList then some Form.jsondata
+               else if s = "cellgrid".toList then some Form.cellgrid else none := by
+  unfold formOf
+  rw [table_handlers_pinned.2.1]
+  by_cases h1 : s = "pdtable".toList
+  · subst h1; decide
+  · by_cases h2 : s = "jsondata".toList
+    · subst h2; decide
+    · by_cases h3 : s = "cellgrid".toList
+      · subst h3; decide
+      · simp only [if_neg h1, if_neg h2, if_neg h3, ite_self]
+
+theorem unknownFormExc_pinned : unknownFormExc = PyExc.valueError := by decide
+
+/-- a known form: the read runs with that form -/
+theorem known_form (cfg : Config) (rows : List Row) (f : Fixer) :
+    parseBlocksStr cfg "pdtable".toList rows f = .running (parseBlocks (withForm cfg .pdtable) rows f) ∧
+    parseBlocksStr cfg "jsondata".toList rows f = .running (parseBlocks (withForm cfg .jsondata) rows f) ∧
+    parseBlocksStr cfg "cellgrid".toList rows f = .running (parseBlocks (withForm cfg .cellgrid) rows f) :=
+  ⟨rfl, rfl, rfl⟩
+
+/-- **unknown_form_rejected**: an output form that is not one of the three keys is rejected with ValueError, and
+    the rejection is the same for every row sequence (and every fixer): nothing of the input is looked at -/
+theorem unknown_form_rejected (cfg : Config) (to : Str) (f : Fixer)
+    (h : to ≠ "pdtable".toList ∧ to ≠ "jsondata".toList ∧ to ≠ "cellgrid".toList) :
+    (∀ rows, parseBlocksStr cfg to rows f = .rejected .valueError) ∧
+    (∀ rows rows' f', parseBlocksStr cfg to rows f = parseBlocksStr cfg to rows' f') := by
+  have hf : formOf to = none := by rw [formOf_pinned, if_neg h.1, if_neg h.2.1, if_neg h.2.2]
+  have : ∀ rows g, parseBlocksStr cfg to rows g = .rejected .valueError := by
+    intro rows g; unfold parseBlocksStr; rw [hf, unknownFormExc_pinned]
+  exact ⟨fun rows => this rows f, fun rows rows' f' => by rw [this rows f, this rows' f']⟩
+
+/-- non-vacuity: spellings close to a key are not keys -/
+example : ("PDTABLE".toList ≠ "pdtable".toList ∧ "PDTABLE".toList ≠ "jsondata".toList ∧ "PDTABLE".toList ≠ "cellgrid".toList) ∧
+    ("cellgrid ".toList ≠ "pdtable".toList ∧ "cellgrid ".toList ≠ "jsondata".toList ∧ "cellgrid ".toList ≠ "cellgrid".toList) ∧
+    (([] : Str) ≠ "pdtable".toList ∧ ([] : Str) ≠ "jsondata".toList ∧ ([] : Str) ≠ "cellgrid".toList) := by decide
 
 /-! ## 1. what does not depend on the form -/
 
@@ -429,9 +478,8 @@ theorem columns_commute (p : Precursor) (dests : List Str) :
 /-- **jsondata_commutes**: for a precursor `p` (one unit and one array per column name) and the Table built
     from it (destinations as the set iterates them), `make_table_json_data` and `table_to_json_data` return
     equal JsonData; the "columns" member is identical including its order and lists every column.
-    `hnd`, `hu`, `hc` are shape facts of every precursor a reader delivers (`makePrecursor_shape`; see
-    `jsondata_commutes_read`, which needs only `hperm` — the Table holds the destinations as a set — and `hn`:
-    column names are dict keys, `_fix_duplicate_column_names` makes them distinct).
+    `hnd`, `hu`, `hc`, `hn` are shape facts of every precursor a reader delivers (`makePrecursor_shape`; see
+    `jsondata_commutes_read`, which needs only `hperm`: the Table holds the destinations as a set).
     (`hu`: a unit row shorter than the name row is an input error — /repo commit 7179188, `Reader.layout` —
     so every precursor a reader produces has one unit per name; before that fix a table without rows slipped
     through as a Table whose column register was shorter than its frame, on which `table_to_json_data` raised
@@ -560,7 +608,8 @@ theorem parseColumns_length (ext : Ext) (us : List Str) (cols : List Row) (f : F
     pairwise distinct destinations -/
 theorem makePrecursor_shape (ext : Ext) (cells : List Row) (f0 f : Fixer) (p : Precursor)
     (h : makePrecursor ext cells f0 = .ok (p, f)) :
-    p.units.length = p.names.length ∧ p.columns.length = p.names.length ∧ p.destinations.Nodup := by
+    p.units.length = p.names.length ∧ p.columns.length = p.names.length ∧ p.destinations.Nodup ∧
+    p.names.Nodup := by
   unfold makePrecursor at h
   cases hl : layout cells with
   | error e => simp [hl, bind, Except.bind] at h
@@ -588,19 +637,27 @@ theorem makePrecursor_shape (ext : Ext) (cells : List Row) (f0 f : Fixer) (p : P
       · simp at h
       · simp only [pure, Except.pure, Except.ok.injEq, Prod.mk.injEq] at h
         obtain ⟨rfl, _⟩ := h
-        refine ⟨by simp only; omega, ?_, hd⟩
-        simp only [List.length_append, List.length_replicate]
-        omega
+        refine ⟨by simp only; omega, ?_, hd, ?_⟩
+        · simp only [List.length_append, List.length_replicate]
+          omega
+        · -- column names: `_fix_duplicate_column_names` makes them pairwise distinct (C13 `names_unique`)
+          have hnames : names = C13.repairedNames L.names0 := by
+            have := C13.fixDuplicates_closed L.names0 f0
+            rw [hdup] at this
+            exact congrArg Prod.fst this
+          simp only
+          rw [hnames]
+          exact C13.names_unique L.names0
 
 /-- **jsondata_commutes, for what a reader produces**: for every precursor `make_table_json_precursor` delivers
-    (any grid, any fixer, any `ext`) with pairwise distinct column names, and the Table built from it -/
+    (any grid, any fixer, any `ext`) — its column names are pairwise distinct by C13 `names_unique` — and the
+    Table built from it, whose destination set iterates in some permutation `dests` -/
 theorem jsondata_commutes_read (ext : Ext) (cells : List Row) (f0 f : Fixer) (p : Precursor)
-    (h : makePrecursor ext cells f0 = .ok (p, f)) (dests : List Str) (hperm : dests.Perm p.destinations)
-    (hn : p.names.Nodup) :
+    (h : makePrecursor ext cells f0 = .ok (p, f)) (dests : List Str) (hperm : dests.Perm p.destinations) :
     ∃ jp jt, ofPrecursor p = .ok jp ∧ ofTable (tableOf p dests) = .ok jt ∧ PyEq jp jt ∧
       member "columns".toList jp = member "columns".toList jt ∧ C08.columnKeys jp = p.names :=
   have hs := makePrecursor_shape ext cells f0 f p h
-  jsondata_commutes p dests hperm hs.2.2 hs.1 hs.2.1 hn
+  jsondata_commutes p dests hperm hs.2.2.1 hs.1 hs.2.1 hs.2.2.2
 
 /-- what a `jsondata` block stands for: the JsonData of its precursor -/
 def jsonOf : BlockVal → Option (Except PyExc JVal)
